@@ -192,7 +192,13 @@ func runCheck(repo, verif, prop, tier string, seed int) int {
 			// as dependencies every obligation counts (the caller relies on their whole contract)
 			// ... except those that belong to another claimed property only: they are decided (and reported) by that
 			// property's check, so that a change breaking one property does not raise alarms under the others
-			if len(o.Tags) == 0 || hasTag(o.Tags, prop) || (supportFuncs[key] && !allClaimedElsewhere(o.Tags, claimed)) {
+			tags := o.Tags
+			if len(tags) == 0 && supportFuncs[key] {
+				// untagged obligations (frame, lock balance, ...) of a function pulled in as a dependency belong to the
+				// properties its own contract is tagged with
+				tags = e.propsOf(c.con)
+			}
+			if len(o.Tags) == 0 && !supportFuncs[key] || len(tags) == 0 || hasTag(tags, prop) || (supportFuncs[key] && !allClaimedElsewhere(tags, claimed)) {
 				all = append(all, o)
 				fr.Obligations++
 			}
@@ -202,6 +208,15 @@ func runCheck(repo, verif, prop, tier string, seed int) int {
 			assumptions[a] = true
 		}
 		for _, b := range c.bindingErrors {
+			// a clause tagged only with other claimed properties is reported by their checks
+			if strings.HasPrefix(b, "[") {
+				if i := strings.Index(b, "] "); i > 0 {
+					tags := strings.Split(b[1:i], ",")
+					if !hasTag(tags, prop) && allClaimedElsewhere(tags, claimed) {
+						continue
+					}
+				}
+			}
 			bindingErrs = append(bindingErrs, key+": "+b)
 		}
 		for cu := range c.calleesUsed {
@@ -343,6 +358,16 @@ func runCheck(repo, verif, prop, tier string, seed int) int {
 		"not_decided":              notDecided[prop],
 		"exhaustive":               false,
 	}
+	if !thorough {
+		var qr thoroughResult
+		if b := e.boundedComplements(prop, false, &qr); len(b) > 0 {
+			cov["bounded"] = b
+		}
+		if qr.violations > 0 {
+			rc = 1
+			violations += qr.violations
+		}
+	}
 	if thorough {
 		extra := e.thoroughExtras(prop, seed)
 		for k, v := range extra.cov {
@@ -455,8 +480,29 @@ func (e *Engine) thoroughExtras(prop string, seed int) thoroughResult {
 		res.cov["mutants"] = map[string]interface{}{"run": len(rows), "behaved_as_expected": caught, "missed": missed, "false_alarms": falseAlarm, "results": rows}
 	}
 	// 2. bounded complements (labelled bounded; never counted as discharged)
+	bounded := e.boundedComplements(prop, true, &res)
+	if len(bounded) > 0 {
+		res.cov["bounded"] = bounded
+	}
+	return res
+}
+
+// boundedComplements runs the bounded stand-ins of a property. They are labelled bounded in the evidence and never
+// added to the discharged obligations; a failing one is a violation with a concrete failing input (the test output).
+func (e *Engine) boundedComplements(prop string, thorough bool, res *thoroughResult) []map[string]interface{} {
 	var bounded []map[string]interface{}
-	if prop == "C16" || prop == "C01" || prop == "C06" {
+	report := func(b map[string]interface{}, name, what string) {
+		bounded = append(bounded, b)
+		if b["result"] == "fail" {
+			res.violations++
+			rp := filepath.Join(e.outBase, "out", "replay", prop, "bounded-"+name+".json")
+			b["obligation"] = "bounded:" + name
+			writeJSON(rp, b)
+			fmt.Printf("bounded-%s: %s\n", name, what)
+			fmt.Printf("VIOLATION property=%s replay=%s\n", prop, rp)
+		}
+	}
+	if thorough && (prop == "C16" || prop == "C01" || prop == "C06") {
 		b := e.lcpConformance()
 		bounded = append(bounded, b)
 		if b["result"] == "disagree" {
@@ -467,22 +513,19 @@ func (e *Engine) thoroughExtras(prop string, seed int) thoroughResult {
 			fmt.Printf("VIOLATION property=%s replay=%s no-failing-input-found\n", prop, rp)
 		}
 	}
-	if prop == "C15" {
-		b := e.boundedOverlay("c15-roundtrip", "c15_roundtrip_test.go.txt", "region", "TestBoundedC15",
-			"real snappy codec through compressCellblocks/decompressCellblocks: 14 payload sizes around chunk boundaries x 3 byte patterns x 4 buffer splittings")
-		bounded = append(bounded, b)
-		if b["result"] == "fail" {
-			res.violations++
-			rp := filepath.Join(e.outBase, "out", "replay", prop, "bounded-c15-roundtrip.json")
-			writeJSON(rp, b)
-			fmt.Printf("bounded-c15-roundtrip: a compressed cellblock stream did not decompress to the bytes written\n")
-			fmt.Printf("VIOLATION property=%s replay=%s\n", prop, rp)
-		}
+	if thorough && prop == "C15" {
+		report(e.boundedOverlay("c15-roundtrip", "c15_roundtrip_test.go.txt", "region", "TestBoundedC15",
+			"real snappy codec through compressCellblocks/decompressCellblocks: 14 payload sizes around chunk boundaries x 3 byte patterns x 4 buffer splittings"),
+			"c15-roundtrip", "a compressed cellblock stream did not decompress to the bytes written")
 	}
-	if len(bounded) > 0 {
-		res.cov["bounded"] = bounded
+	if prop == "C08" || (thorough && prop == "C01") {
+		// the inductive cache invariant and the overlap search (B-tree enumeration) are not under contract: this
+		// stand-in runs on every tier of C08, and in the thorough tier of C01 for the "start <= key" half of routing
+		report(e.boundedOverlay("c08-cache", "c08_cache_test.go.txt", ".", "TestBoundedC08",
+			"every sequence of up to 3 put/del operations over 40 regions (2 prefix-related tables x 10 ranges over keys \"\",a,b,c x 2 ids) on the real keyRegionCache against a brute-force interval model; 14 lookups after every step against brute-force containment"),
+			"c08-cache", "the location cache disagrees with the brute-force interval model")
 	}
-	return res
+	return bounded
 }
 
 func firstN(xs []string, n int) []string {
@@ -494,7 +537,7 @@ func firstN(xs []string, n int) []string {
 
 // boundedOverlay runs an in-package test kept under /verif/bounded against the real code (go test -overlay).
 func (e *Engine) boundedOverlay(name, file, pkgDir, pattern, bound string) map[string]interface{} {
-	out := map[string]interface{}{"name": name, "kind": "bounded", "bound": bound}
+	out := map[string]interface{}{"name": name, "kind": "bounded", "bound": bound, "file": file, "package": pkgDir, "pattern": pattern}
 	dir, err := os.MkdirTemp("", "gowp-bounded-")
 	if err != nil {
 		out["result"] = "not-run"
